@@ -14,6 +14,7 @@ from ruamel.yaml.parser import ParserError
 from ruamel.yaml.composer import ComposerError, ReusedAnchorWarning
 from ruamel.yaml.constructor import ConstructorError, DuplicateKeyError
 from ruamel.yaml.scanner import ScannerError
+from ruamel.yaml.reader import ReaderError
 from ruamel.yaml.scalarbool import ScalarBoolean
 from ruamel.yaml.scalarstring import ScalarString
 from ruamel.yaml.comments import (
@@ -139,6 +140,11 @@ class Parsers:
             logger.error("YAML syntax error {}:  {}"
                         .format(str(ex.problem_mark).lstrip(), ex.problem))
             data_available = False
+        except (ValueError, KeyError, ReaderError) as ex:
+            # Well-formed syntax holding a value which cannot be constructed
+            # (2020-02-30, !!int abc, !!bool maybe) or a forbidden character
+            logger.error("YAML construction error:  {}".format(ex))
+            data_available = False
         except DuplicateKeyError as dke:
             omits = [
                 "while constructing", "To suppress this", "readthedocs",
@@ -253,6 +259,11 @@ class Parsers:
             has_error = True
             logger.error("YAML syntax error {}:  {}"
                         .format(str(ex.problem_mark).lstrip(), ex.problem))
+        except (ValueError, KeyError, ReaderError) as ex:
+            # Well-formed syntax holding a value which cannot be constructed
+            # (2020-02-30, !!int abc, !!bool maybe) or a forbidden character
+            has_error = True
+            logger.error("YAML construction error:  {}".format(ex))
         except DuplicateKeyError as dke:
             has_error = True
             omits = [
